@@ -178,7 +178,7 @@ def wide_store(ctx, res):
                 pending.append(b)
                 written[b.hash()] = b
             level = nxt
-            if len(pending) >= 400 or h == heights:
+            if len(pending) >= (400 if layout == 0 else 10 ** 9) or h == heights:      # (second layout: one flush of everything)
                 for b in pending:
                     store.add_block_to_buffer(b)
                 store.flush_blocks_to_disk()
